@@ -1,4 +1,8 @@
 def classify(sig, what):
     if 'scalar=merge' in sig:
         return 'Y1: the string "<<" is written as a plain (unquoted) YAML scalar by the yaml.v3 encoder used by every command (swag.JSONMapSlice.MarshalYAML, marshalToYAMLFormat, init spec), and the toolkit loader then rejects it as an unsupported merge key: the YAML output cannot be loaded back while the JSON output can. Root cause lies in the gopkg.in/yaml.v3 dependency (encoder does not quote the merge indicator); no small repair inside go-swagger.'
+    if 'scalar=long as key' in sig and 'generate-spec' in sig:
+        return 'Y2: generate spec renders YAML by parsing its JSON output as YAML (marshalToYAMLFormat: yaml.Unmarshal on JSON bytes); YAML limits implicit keys to 1024 characters, so a document with a very long key (4 KB property name) makes --output x.yml fail while JSON output works.'
+    if 'scalar=num-2^63' in sig:
+        return 'Y3: a number >= 2^63 passes through float64 and is written to YAML as the integer literal 9223372036854776000, which the toolkit loader (swag YAML -> JSON conversion) refuses as a scalar; the JSON output loads. Root cause in the yaml/swag number handling (dependency) reached through marshalToYAMLFormat.'
     return None
